@@ -135,6 +135,22 @@ static void prop(Ctx &c) {
             if (sum_overflow || (run >> 64)) { ssize_t g = zck_get_data_length(z); if (g >= 0) F_("wrapped-data-length", "data length exceeds 64 bits but " + std::to_string(g) + " was reported"); }
             else { cmp_size("data-length", zck_get_data_length(z), run); ref::u128 tot = (ref::u128)h.total_size + run; if (!(tot >> 64)) cmp_size("total-length", zck_get_length(z), tot); }
         }
+        // what the context reports about ITS file must not change when the context is used: paired with another file that holds the same
+        // chunks at other offsets (zck_find_matching_chunks, the first step of a delta computation), starts, sizes and checksums are
+        // still this file's
+        if (c.gver >= 4 && fail_sig.empty() && h.meta_ok && h.entries.size() >= 3 && !sum_overflow && c.rarely(3)) {
+            ref::Header h2 = h; std::rotate(h2.entries.begin() + 1, h2.entries.begin() + 2, h2.entries.end()); h2.detached = false; Bytes simg = ref::emit_header(h2);
+            int sfd = lib::mkfd(simg); zckCtx *src = zck_create();
+            if (zck_init_read(src, sfd)) {
+                (void)!zck_find_matching_chunks(src, z); if (zck_is_error(z)) (void)!zck_clear_error(z); c.label("after-matching-against-another-file");
+                size_t it2 = 0; ref::u128 run2 = 0;
+                for (zckChunk *ch = zck_get_first_chunk(z); ch && it2 < h.entries.size(); ch = zck_get_next_chunk(ch), it2++) { const ref::Entry &e = h.entries[it2];
+                    cmp_size("chunk-start(after matching)", zck_get_chunk_start(ch), (ref::u128)h.total_size + run2); cmp_size("chunk-comp-size(after matching)", zck_get_chunk_comp_size(ch), e.comp_len);
+                    cmp_size("chunk-size(after matching)", zck_get_chunk_size(ch), e.len); cmp_size("chunk-number(after matching)", zck_get_chunk_number(ch), it2); cmp_hex("chunk-digest(after matching)", zck_get_chunk_digest(ch), e.digest); run2 += e.comp_len; }
+                cmp_size("header-length(after matching)", zck_get_header_length(z), h.total_size); cmp_size("data-length(after matching)", zck_get_data_length(z), run);
+            }
+            zck_free(&src); close(sfd);
+        }
         if (h.entries.size() >= 2 || nm) c.nontrivial();
         c.label(h.meta_ok ? "compared-consistent" : "compared-inconsistent-meta");
     }
